@@ -598,10 +598,17 @@ func (mp *Pool) checkTxConflicts(tx *transaction.Transaction, feer Feer) ([]*tra
 		expectedPayerFee     utilityBalanceAndFees
 		conflictsToBeRemoved []*transaction.Transaction
 		conflictingFee       int64
+		// seen keeps every conflicting transaction counted once, whatever
+		// number of attributes names it.
+		seen = make(map[util.Uint256]struct{})
 	)
 	// Step 1: check if `tx` was in attributes of mempooled transactions.
 	if conflictingHashes, ok := mp.conflicts[tx.Hash()]; ok {
 		for _, hash := range conflictingHashes {
+			if _, ok := seen[hash]; ok {
+				continue
+			}
+			seen[hash] = struct{}{}
 			existingTx := mp.verifiedMap[hash]
 			if existingTx.HasSigner(author) {
 				conflictingFee += existingTx.NetworkFee
@@ -632,6 +639,10 @@ func (mp *Pool) checkTxConflicts(tx *transaction.Transaction, feer Feer) ([]*tra
 			if !signerOK {
 				return nil, fmt.Errorf("%w: not signed by a signer of conflicting transaction %s", ErrConflictsAttribute, existingTx.Hash().StringBE())
 			}
+			if _, ok := seen[hash]; ok {
+				continue
+			}
+			seen[hash] = struct{}{}
 			conflictingFee += existingTx.NetworkFee
 			conflictsToBeRemoved = append(conflictsToBeRemoved, existingTx)
 		}
